@@ -4,18 +4,38 @@ import (
 	"encoding/json"
 	"fmt"
 	"os"
+	"strconv"
 	"testing"
 
 	"github.com/refraction-networking/uquic/verif/vf"
 )
 
+// TestDbg runs one hand-written Case (C12_CASE=<json>) and prints what each scenario found.
 func TestDbg(t *testing.T) {
+	if os.Getenv("C12_CASE") == "" {
+		t.Skip("development aid: set C12_CASE to a Case in JSON form")
+	}
 	curT = t
 	var c Case
 	if err := json.Unmarshal([]byte(os.Getenv("C12_CASE")), &c); err != nil {
 		t.Fatal(err)
 	}
 	u := vf.Scratch()
+	rep, _ := strconv.Atoi(os.Getenv("C12_REPEAT"))
+	for i := 0; i < rep; i++ {
+		for _, sc := range c.Scen {
+			var r result
+			var lv *vf.Verdict
+			simBubble(func() { r = runScenario(c, sc, u) }, &lv)
+			for _, v := range r.verdicts {
+				if v.Sig != sigRecord {
+					b, _ := json.Marshal(v.Trace)
+					fmt.Printf("run %d: %s: %s\n%s\n", i, v.Sig, v.Detail, b)
+					return
+				}
+			}
+		}
+	}
 	for _, sc := range c.Scen {
 		var r result
 		var lv *vf.Verdict
